@@ -37,6 +37,11 @@ CLAIMS["C05"] = ("bounded symbolic execution (symx, real arithmetic) of the real
          "bounding box (axis-aligned case), font and fill colour equal the text model's (polynomial identities discharged by normalisation or by z3); spacing/scaling/rise with TJ adjustments, a form "
          "XObject with symbolic Matrix leaving the caller's state untouched, stream splitting and ill-typed operands are covered by further harnesses. Bounded; floats as reals.",
          "4.C05")
+CLAIMS["C16"] = ("bounded symbolic execution (symx, real arithmetic) of the real path-construction, painting, colour and q/Q/cm operators and PDFLayoutAnalyzer.paint_path against a reference model of ISO 32000-1 8.5",
+         "For every program [q] state-op (w d G g RG rg K k cm, or a colour operator followed by sc/scn/SC/SCN) ; m|re + K construction operators chosen symbolically ; any painting operator ; [Q sc|SC] ; m l S, "
+         "with ALL operands symbolic reals, each painted subpath yields one shape with the transformed end points in order, the right class (line / closed axis-aligned quadrilateral / curve), flags, line width, dash, "
+         "colours at painting time, q/Q restoring them, and n leaving no residue. K=2 quick, 3 thorough; floats as reals.",
+         "4.C16")
 NA = {}
 def main():
     props = [json.loads(l) for l in open(os.path.join(ROOT, "properties.jsonl"))]
